@@ -64,6 +64,8 @@ type Timer struct {
 	deadline time.Time
 	active   bool
 	id       int
+	periodic bool
+	period   Duration
 }
 
 type Event struct {
@@ -131,7 +133,11 @@ func (t *Timer) Fire() bool {
 		mu.Unlock()
 		return false
 	}
-	t.active = false
+	if t.periodic {
+		t.deadline = now.Add(t.period)
+	} else {
+		t.active = false
+	}
 	n := now
 	fn := t.fn
 	mu.Unlock()
@@ -206,3 +212,57 @@ func (t *Timer) Reset(d Duration) bool {
 	emit(Event{Kind: "reset", Timer: t, D: d})
 	return was
 }
+
+// ---- tickers ----
+
+// Ticker is a timer that stays armed after it is fired; the harness delivers
+// each tick with Fire (a tick is dropped when the previous one was not
+// consumed, like the real ticker's one-slot channel).
+type Ticker struct {
+	C <-chan Time
+	t *Timer
+}
+
+// Periodic reports whether the timer belongs to a Ticker.
+func (t *Timer) Periodic() bool { return t.periodic }
+
+func NewTicker(d Duration) *Ticker {
+	if d <= 0 {
+		panic("non-positive interval for NewTicker")
+	}
+	t := newPeriodic(d)
+	return &Ticker{C: t.C, t: t}
+}
+
+func newPeriodic(d Duration) *Timer {
+	mu.Lock()
+	c := make(chan Time, 1)
+	nextID++
+	t := &Timer{C: c, c: c, deadline: now.Add(d), active: true, id: nextID, periodic: true, period: d}
+	timers = append(timers, t)
+	mu.Unlock()
+	emit(Event{Kind: "new", Timer: t, D: d})
+	return t
+}
+
+func Tick(d Duration) <-chan Time {
+	if d <= 0 {
+		return nil
+	}
+	return NewTicker(d).C
+}
+
+func (k *Ticker) Stop() { k.t.Stop() }
+
+func (k *Ticker) Reset(d Duration) {
+	if d <= 0 {
+		panic("non-positive interval for Ticker.Reset")
+	}
+	mu.Lock()
+	k.t.period = d
+	mu.Unlock()
+	k.t.Reset(d)
+}
+
+// Timer returns the underlying harness handle of a ticker.
+func (k *Ticker) Timer() *Timer { return k.t }
